@@ -16,6 +16,7 @@ MSG = {
     "Optimization terminated: reached maximum number of iterations options['max_iter'].": "maxiter",
     "Optimization terminated: change in the function value less than options['tol_mesh']": "tolmesh",
     "Optimization terminated: change in the function value less than options['tol_fun'].": "tolfun",
+    "Optimization terminated: stopped by options['output_fcn'].": "outfcn",
 }
 
 
@@ -285,8 +286,8 @@ def project(events, run_index=0):
                     kind = "init"
             elif site in ("search", "poll"):
                 kind = site
-            elif site == "final":
-                kind = "final"
+            elif site == "final" or (site == "top" and not e["rec"] and any(x["e"] == "Reserve" for x in out)):
+                kind = "final"        # re-sampling after the loop (also when the loop never ran)
             else:
                 kind = "other"
             tc = tcs[0] if tcs else None
@@ -527,7 +528,8 @@ def project(events, run_index=0):
                nlog=int(e["final"]["Xn"] + 1) if e.get("final") else -1)
     # the loop_end hook must have fired in every run that reached the main loop
     if any(e["ev"] == "Reserve" for e in events) and any(e["ev"] == "Result" for e in events) \
-            and not any(e["ev"] == "LoopEnd" for e in events):
+            and not any(e["ev"] == "LoopEnd" for e in events) \
+            and not any(e["ev"] == "Result" and "output_fcn" in e["message"] for e in events):
         from .common import MachineryError
         raise MachineryError("no LoopEnd events: the loop_end hook did not fire (PYBADS_VERIF guard off?)")
     # final log consistency guards (C01 internal box / maps back, C12 run level)
